@@ -652,6 +652,25 @@ class HistogramBase(abc.ABC):
         self._frequencies = new_frequencies
         self._errors2 = new_errors2
 
+    def _add_contents(self, frequencies: np.ndarray, errors2: np.ndarray) -> None:
+        """Add the contents of a batch of values.
+
+        Sums that a compact integer content type cannot hold widen it
+        (as merged bins do) instead of wrapping around.
+        """
+        dtype = self._frequencies.dtype
+        if dtype.kind in "iu" and dtype.itemsize < 8:
+            new_frequencies = self._frequencies.astype(np.int64) + frequencies
+            new_errors2 = self._errors2.astype(np.int64) + errors2
+            type_info = np.iinfo(dtype)
+            if max(new_frequencies.max(initial=0), new_errors2.max(initial=0)) > type_info.max:
+                self.set_dtype(np.promote_types(new_frequencies.dtype, new_errors2.dtype))
+            self._frequencies = new_frequencies.astype(self.dtype)
+            self._errors2 = new_errors2.astype(self.dtype)
+        else:
+            self._frequencies += frequencies
+            self._errors2 += errors2
+
     def _apply_bin_map(
         self,
         old_frequencies: np.ndarray,
